@@ -7,7 +7,7 @@
 (* every edit sequence up to MaxSteps and prints every edge; the harness        *)
 (* replays it on the real package and re-reads ALL live handles, contexts and   *)
 (* previously returned Member/Property slices after every single step.          *)
-EXTENDS BaggageCodec, TLC, Json
+EXTENDS BaggageEdit, TLC, Json
 
 CONSTANTS MemberArgs,    \* member arguments for SetMember (token keys, valid UTF-8)
           NewLists,      \* argument lists for New
@@ -20,55 +20,25 @@ VARIABLES bags,   \* sequence of baggage values; handle = index; bags[1] is the 
           steps, act
 vars == <<bags, ctxs, steps, act>>
 
-Without(b, k) == SelectSeq(b, LAMBDA m : m.k # k)
-SetM(b, m) == Append(Without(b, m.k), m)
-AsMembers(l) == [i \in 1..Len(l) |-> ToMember(l[i])]
-
 Init == /\ bags = << <<>> >> /\ ctxs = << <<>> >> /\ steps = 0 /\ act = [op |-> "Init"]
-
-(* effect of one API call on (bags, ctxs) as a pure function: shared with Trace_Baggage.tla.   *)
-(* contexts: ContextWithBaggage(parent c, bags[h]), FromContext, ContextWithoutBaggage, a derived   *)
-(* child; propagator: Inject(ctxs[c]) into a fresh carrier, Extract(parent p, carrier) -- an empty   *)
-(* baggage injects nothing, and Extract without a (parseable) header returns the parent unchanged;  *)
-(* the zero Member is refused by SetMember and the ORIGINAL baggage is returned;                     *)
-(* Scribble: the caller overwrites every slice it was handed for handle h (Members(),               *)
-(* Properties()) and the property slices it passed to the constructors: nothing may change.         *)
-WithBag(bs, cs, b) == [bags |-> Append(bs, b), ctxs |-> cs]
-WithCtx(bs, cs, b) == [bags |-> bs, ctxs |-> Append(cs, b)]
-Eff(bs, cs, a) ==
-  CASE a.op = "New" ->
-         LET r == NewVerdict(AsMembers(a.args), [i \in 1..Len(a.args) |-> MemberLen(ToMember(a.args[i]))]) IN
-         IF r.out = "accept" THEN WithBag(bs, cs, r.b) ELSE [bags |-> bs, ctxs |-> cs]
-    [] a.op = "SetMember" -> WithBag(bs, cs, SetM(bs[a.h], ToMember(a.arg)))
-    [] a.op = "SetZero" -> WithBag(bs, cs, bs[a.h])
-    [] a.op = "DeleteMember" -> WithBag(bs, cs, Without(bs[a.h], a.k))
-    [] a.op = "Parse" ->
-         LET r == ParseHeader(a.hd) IN
-         IF r.out = "accept" THEN WithBag(bs, cs, r.b) ELSE [bags |-> bs, ctxs |-> cs]
-    [] a.op = "ToCtx" -> WithCtx(bs, cs, bs[a.h])
-    [] a.op = "FromCtx" -> WithBag(bs, cs, cs[a.c])
-    [] a.op = "ClearCtx" -> WithCtx(bs, cs, <<>>)
-    [] a.op = "Child" -> WithCtx(bs, cs, cs[a.c])
-    [] a.op = "Propagate" ->
-         LET r == ParseHeader(Serialize(cs[a.c])) IN
-         WithCtx(bs, cs, IF cs[a.c] = <<>> \/ r.out # "accept" THEN cs[a.p] ELSE r.b)
-    [] a.op = "Scribble" -> [bags |-> bs, ctxs |-> cs]
 
 Do(a) == LET r == Eff(bags, ctxs, a) IN bags' = r.bags /\ ctxs' = r.ctxs /\ act' = a
 Accepted(l) == NewVerdict(AsMembers(l), [i \in 1..Len(l) |-> MemberLen(ToMember(l[i]))]).out = "accept"
 
-Next == /\ steps < MaxSteps /\ steps' = steps + 1
-        /\ \/ \E l \in NewLists : Accepted(l) /\ Do([op |-> "New", args |-> l])
-           \/ \E h \in 1..Len(bags) : \/ \E a \in MemberArgs : Do([op |-> "SetMember", h |-> h, arg |-> a])
-                                     \/ Do([op |-> "SetZero", h |-> h])
-                                     \/ \E k \in DelKeys : Do([op |-> "DeleteMember", h |-> h, k |-> k])
-                                     \/ \E c \in 1..Len(ctxs) : Do([op |-> "ToCtx", h |-> h, c |-> c])
-                                     \/ Do([op |-> "Scribble", h |-> h])
-           \/ \E hd \in Hdrs : ParseHeader(hd).out = "accept" /\ Do([op |-> "Parse", hd |-> hd])
-           \/ \E c \in 1..Len(ctxs) : \/ Do([op |-> "FromCtx", c |-> c])
-                                     \/ Do([op |-> "ClearCtx", c |-> c])
-                                     \/ Do([op |-> "Child", c |-> c])
-                                     \/ \E p \in 1..Len(ctxs) : Do([op |-> "Propagate", c |-> c, p |-> p])
+Tick == steps < MaxSteps /\ steps' = steps + 1
+ANew == Tick /\ \E l \in NewLists : Accepted(l) /\ Do([op |-> "New", args |-> l])
+ASetMember == Tick /\ \E h \in 1..Len(bags), a \in MemberArgs : Do([op |-> "SetMember", h |-> h, arg |-> a])
+ASetZero == Tick /\ \E h \in 1..Len(bags) : Do([op |-> "SetZero", h |-> h])
+ADelete == Tick /\ \E h \in 1..Len(bags), k \in DelKeys : Do([op |-> "DeleteMember", h |-> h, k |-> k])
+AToCtx == Tick /\ \E h \in 1..Len(bags), c \in 1..Len(ctxs) : Do([op |-> "ToCtx", h |-> h, c |-> c])
+AScribble == Tick /\ \E h \in 1..Len(bags) : Do([op |-> "Scribble", h |-> h])
+AParse == Tick /\ \E hd \in Hdrs : ParseHeader(hd).out = "accept" /\ Do([op |-> "Parse", hd |-> hd])
+AFromCtx == Tick /\ \E c \in 1..Len(ctxs) : Do([op |-> "FromCtx", c |-> c])
+AClearCtx == Tick /\ \E c \in 1..Len(ctxs) : Do([op |-> "ClearCtx", c |-> c])
+AChild == Tick /\ \E c \in 1..Len(ctxs) : Do([op |-> "Child", c |-> c])
+APropagate == Tick /\ \E c \in 1..Len(ctxs), p \in 1..Len(ctxs) : Do([op |-> "Propagate", c |-> c, p |-> p])
+Next == ANew \/ ASetMember \/ ASetZero \/ ADelete \/ AToCtx \/ AScribble \/ AParse \/ AFromCtx \/ AClearCtx
+        \/ AChild \/ APropagate
 Spec == Init /\ [][Next]_vars
 
 View == <<bags, ctxs, steps>>
